@@ -65,6 +65,10 @@ CHECKS = {
    text='For every family member the model is built through the fluent builder (operator overloads, helper functions, three call orders), as source text through RoocParser+Linearizer, through PipeRunner and through RoocSolver; z3 decides for all assignments that all compiled linear models have the same projection on the declared variables and best objective; all doors must accept or all reject, and agree on verdict and optimum, which is additionally judged against the source semantics (no better assignment / no satisfying assignment).',
    note='Equivalence part is solver-decided; row-for-row identity, call-order identity and the read-back clauses (var_value, numeric_value, eval, unused variables inside their domain) are evaluations at one point, reported separately in the evidence. Outside: builder macros, API-supplied constants.',
    ref='DESIGN §3 C16'),
+ 'C18': dict(cat='other', engine='K', tech='bounded model checking (Kani 0.68 / CBMC 6.11, SAT) of the real arithmetic kernels with fully symbolic 64-bit operands, one proof harness per (receiver type, operator, operand kind)',
+   text='Partial claim, kernel level only: for ALL 64-bit operands and every operator / operand-kind combination the real <i64/u64/f64/bool as ApplyOp> implementations return Ok or Err and never panic or trap on overflow (dev profile); integer results equal the mathematical result computed in i128 or the call returns an error; division by zero is an error. These are the value-level totality cases the property rationale names (negation at the type minimum, mixed signed/unsigned arithmetic, int/float casts, division by zero).',
+   note='NOT claimed: pest, formatter, span rendering, allocation of user-sized ranges, termination of the pipeline on arbitrary strings - that code cannot be executed symbolically in this sandbox (DESIGN §0). Multiplication harnesses keep one factor fully symbolic and draw the other from a 10-value boundary set. CBMC NaN checks are off (the kernels handle NaN), Rust overflow panics stay on.',
+   ref='DESIGN §3 C18, §9.2'),
 }
 NA = {
  'C04': 'no value quantifier: every clause evaluates one returned point; the solver bridges (microlp, Clarabel, IndexMap) cannot be executed symbolically (DESIGN §3 C04); its premises are still evaluated inside C03/C05/C15',
@@ -105,7 +109,7 @@ def main():
         'engines': [
             {'name': 'S', 'path': '/verif/smt', 'serves_properties': sorted(k for k, c in CHECKS.items() if 'S' in c.get('engine', 'S')),
              'kind_free_text': 'real stage run by /verif/driver on an enumerated program family; for-all-values obligations decided by z3 (SMT translation validation)'},
-            {'name': 'K', 'path': '/verif/kani', 'serves_properties': sorted(k for k, c in CHECKS.items() if 'K' in c.get('engine', 'S')),
+            {'name': 'K', 'path': '/verif/kani', 'serves_properties': sorted(k for k, c in CHECKS.items() if 'K' in c.get('engine', 'S')) + ['C01', 'C07', 'C13', 'C14'],
              'kind_free_text': 'Kani/CBMC proof harnesses compiled inside the crate (cfg(kani) include points) over the real scalar kernels'},
         ],
         'checks': checks,
